@@ -330,6 +330,8 @@ def comprehension(self, n, env, kind):
       return self.new_box(self.seq_from_items(outs, hint.elem))
     if kind == 'set':
       hint = self.type_hint(n) or SetOf(self.sort_of(outs[0]))
+      if isinstance(hint, SeqOf):
+        hint = SetOf(hint.elem)      # {..} written inside tuple(...) / list(...): the hint names the enclosing sequence
       t = hint.empty()
       for x in outs:
         t = z3.Store(t, self.coerce(x, hint.elem).t, True)
@@ -352,6 +354,8 @@ def comprehension(self, n, env, kind):
     self.assign(g.target, it.at(k), e)
     conds = [self.truthy(self.eval(c, e)) for c in g.ifs]
     hint = self.type_hint(n)
+    if kind == 'set' and isinstance(hint, SeqOf):
+      hint = SetOf(hint.elem)      # {..} written inside tuple(...) / list(...): the hint names the enclosing sequence
     saved_hint = getattr(self, '_hint', None)
     # literals inside the element ([] / {}) take the element sort of the comprehension's hint
     self._hint = getattr(hint, 'elem', None) if hint is not None and kind in ('list', 'tuple', 'set') else None
